@@ -1,8 +1,10 @@
 package props
 
 import (
+	"bytes"
 	"context"
 	"encoding/base64"
+	"encoding/binary"
 	"fmt"
 	"google.golang.org/genproto/googleapis/api/httpbody"
 	"net/http"
@@ -91,6 +93,19 @@ func c14Worlds() []c14World {
 			s.Body.FailAt, s.Body.FailErr = len(s.Body.Data)/2, fmt.Errorf("connection reset by peer")
 		}, big),
 		mk("web-proto-sstream", wire.GRPCWeb, "SStream", "proto", "", false, echo(`{"name":"r7a"}`, `{"name":"r7b"}`, `{}`), nil, other),
+		// a response message that inflates fine but does not decode: the response adapter gives up
+		// on a message whose buffer has been swapped for the inflated one
+		mk("web-json-undecodable-gzip-response", wire.GRPCWeb, "Unary", "json", "gzip", true, func(b *world.Backend, r *http.Request) *world.Reply {
+			rep := echo(`{"name":"r8"}`)(b, r)
+			out := *rep.Out
+			junk := wire.GzipCompress(bytes.Repeat([]byte{0xff, 0xff, 0x07}, 120))
+			offs := frameOffsets(out.Body)
+			out.Body = append(wire.AppendFrame(nil, 1, junk), out.Body[offs[0]+5+int(binary.BigEndian.Uint32(out.Body[offs[0]+1:])):]...)
+			out.Header = out.Header.Clone()
+			out.Header.Set("Grpc-Encoding", "gzip")
+			rep.Out = &out
+			return rep
+		}, nil, big),
 	}
 	toConnect := c14World{name: "target=Connect/json/none", cfg: world.Config{Protocols: []vanguard.Protocol{vanguard.ProtocolConnect}, Codecs: []string{"json"}, NoCompress: true, MaxMsg: 4000}}
 	toConnect.rpcs = []c14RPC{
